@@ -1,6 +1,7 @@
 import Asn1Verif.Uper.Sexpr
 import Asn1Verif.Proto.Codec
 import Asn1Verif.Proto.Schema
+import Asn1Verif.Proto.Package
 /- line protocol, stream `proto` (C17, C18, protobuf part of C04) -/
 namespace Driver.ProtoStream
 open Asn1Verif Asn1Verif.Uper Asn1Verif.Proto Asn1Verif.Text
@@ -20,8 +21,79 @@ def short (o : Outcome (List (BitVec 8))) : String :=
   | .err k => "err:" ++ toString k
   | .panic => "panic"
 
+/-! ### `package` / `package-fn`: Proto/Package.lean -/
+
+/-- hex of ASCII bytes → characters; `none` = malformed, `some none` = contains a non-ASCII byte -/
+def nameOfHex (s : String) : Option (Option (List Char)) :=
+  match hexToBytes s with
+  | none => none
+  | some bs =>
+    if bs.all (fun b => b.toNat < 128) then some (some (bs.map fun b => Char.ofNat b.toNat))
+    else some none
+
+def hexOfName (n : List Char) : String :=
+  bytesToHex (n.map fun c => BitVec.ofNat 8 c.toNat)
+
+/-- a `u64` in decimal digits -/
+def u64OfString (s : String) : Option Nat :=
+  if s.isEmpty || !s.toList.all Char.isDigit then none else
+  match s.toNat? with
+  | some k => if k < 2 ^ 64 then some k else none
+  | none => none
+
+/-- one component `n:<hex>` / `nn:<hex>:<u64>` / `u:<u64>`; `some none` = non-ASCII name -/
+def oidCompOfToken (t : String) : Option (Option Package.OidComp) :=
+  match t.splitOn ":" with
+  | ["n", h] =>
+    match nameOfHex h with
+    | none => none
+    | some none => some none
+    | some (some n) => some (some (.nameForm n))
+  | ["nn", h, k] =>
+    match nameOfHex h, u64OfString k with
+    | none, _ => none
+    | _, none => none
+    | some none, _ => some none
+    | some (some n), some k => some (some (.nameAndNumberForm n k))
+  | ["u", k] => (u64OfString k).map fun k => some (.numberForm k)
+  | _ => none
+
+def oidCompsOfTokens : List String → Option (Option (List Package.OidComp))
+  | [] => some (some [])
+  | t :: ts =>
+    match oidCompOfToken t, oidCompsOfTokens ts with
+    | none, _ => none
+    | _, none => none
+    | some (some c), some (some cs) => some (some (c :: cs))
+    | _, _ => some none
+
+/-- `-` = no object identifier, `empty` = `{ }`, else components joined by `,` -/
+def oidOfToken (t : String) : Option (Option (Option Package.Oid)) :=
+  if t = "-" then some (some none)
+  else if t = "empty" then some (some (some []))
+  else
+    match oidCompsOfTokens (t.splitOn ",") with
+    | none => none
+    | some none => some none
+    | some (some cs) => some (some (some cs))
+
+def packageAnswer (h oid : String) (pkg : List Char → Option Package.Oid → List Char)
+    (file : List Char → List Char) : String :=
+  match nameOfHex h, oidOfToken oid with
+  | none, _ => "bad-op"
+  | _, none => "bad-op"
+  | some (some n), some (some o) => "ok " ++ hexOfName (pkg n o) ++ " " ++ hexOfName (file n)
+  | _, _ => "skip"
+
 def handle (args : List String) : String :=
   match args with
+  | ["package", h, oid] => packageAnswer h oid Package.packageOfModule Package.fileNameOfModule
+  | ["istoken", h] =>
+    match nameOfHex h with
+    | none => "bad-op"
+    | some none => "skip"
+    | some (some n) => "ok " ++ boolStr (Package.TokenText n)
+  | ["package-fn", h, oid] => packageAnswer h oid Package.modelToPackage Package.modelFileName
   | ["files"] => "skip"
   | ["sets"] => "skip"
   | "schema" :: _ => "skip"
